@@ -40,12 +40,17 @@ def clamp64(v):
     return max(I64_MIN, min(I64_MAX, v))
 
 
-def pick_field(rng, lo_norm, hi_norm):
+def pick_field(rng, lo_norm, hi_norm, wild=False):
     r = rng.random()
     if r < 0.3:
         return rng.randint(lo_norm, hi_norm)
     if r < 0.6:
         return rng.choice(SMALL)
+    if not wild:
+        # large but such that the normalised year still fits for moderate base years
+        if r < 0.85:
+            return rng.randint(-(1 << 40), 1 << 40)
+        return rng.choice([1 << 31, -(1 << 31), (1 << 31) - 1, 146097 * 86400, -146097 * 86400, 12622780800, 1 << 45, -(1 << 45)]) + rng.randint(-70, 70)
     if r < 0.8:
         return clamp64(rng.choice(BIG) + rng.randint(-70, 70))
     if r < 0.9:
@@ -59,9 +64,10 @@ def gen_c04(tier, rng):
     # (i) boundary stream: each argument at a boundary, others normal or boundary
     for _ in range(n_rand):
         tag = rng.randint(0, 5)
-        y = clamp64(pick_year(rng))
-        f = [pick_field(rng, 1, 12), pick_field(rng, 1, 31), pick_field(rng, 0, 23),
-             pick_field(rng, 0, 59), pick_field(rng, 0, 59)]
+        wild = rng.random() < 0.12          # a minority of cases may leave the property's domain (overflow expected)
+        y = clamp64(pick_year(rng)) if wild or rng.random() < 0.3 else rng.choice([rng.randint(-3000, 3000), rng.randint(-(1 << 50), 1 << 50), 1970, 2000])
+        f = [pick_field(rng, 1, 12, wild), pick_field(rng, 1, 31, wild), pick_field(rng, 0, 23, wild),
+             pick_field(rng, 0, 59, wild), pick_field(rng, 0, 59, wild)]
         cases.append("ctor %d %d %s" % (tag, y, " ".join(map(str, f))))
     # (ii) the F1 family: month multiples of 12 near the top year
     for k in range(2, 40):
@@ -102,13 +108,13 @@ UNIT = [1, 60, 3600, 86400, 86400 * 30, 86400 * 365]
 
 def pick_n(rng, tag):
     r = rng.random()
-    if r < 0.35:
+    if r < 0.45:
         return rng.choice(SMALL)
-    if r < 0.6:
+    if r < 0.55:
         return clamp64(rng.choice(BIG) + rng.randint(-70, 70))
-    if r < 0.7:
+    if r < 0.6:
         return rng.choice([I64_MIN, I64_MIN + 1, I64_MAX, I64_MAX - 1])
-    if r < 0.85:
+    if r < 0.95:
         return rng.randint(-(1 << 36), 1 << 36)
     return rng.randint(I64_MIN, I64_MAX)
 
